@@ -6,6 +6,7 @@ import GrinVerif.Model.TxCount
 import GrinVerif.Model.KvGate
 import GrinVerif.Model.ChainStore
 import GrinVerif.Model.KvMigrate
+import GrinVerif.Model.KvF32
 /-! Driver glue for the `kv` domain (property C18): folds the model `GV.Kv.St` over the op lines
 of `harness/src/bin/kv.rs` and recomputes every answer.
 
@@ -452,7 +453,25 @@ def handle (st : St) (args : List String) (impl : String) : St × Verdict :=
   | ["it-close", _who] => ({ st with held := none }, cmpSpec "ok" impl)
   | ["needs-resize", m, u, c] => match nat? m, nat? u, nat? c with
     | some m, some u, some c =>
-      let r := needsResize m u c
+      -- the code's own f32 arithmetic (`Model/KvF32.lean`); equal to the exact-rational `needsResize`
+      -- of the theorems for every map below 64 GiB (run `f32probe`)
+      let r := F32.needsResizeF32 m u c
+      (st, cmpModel s!"{showBool r.1} {r.2}" impl)
+    | _, _, _ => (st, .unknown)
+  -- run `f32probe`: the hardware's f32 against the model's
+  | ["f32-gt", pct, u, m] => match nat? pct, nat? u, nat? m with
+    | some 90, some u, some m => (st, cmpModel (showBool (F32.gt90 u m)) impl)
+    | some 65, some u, some m => (st, cmpModel (showBool (F32.gt65 u m)) impl)
+    | _, _, _ => (st, .unknown)
+  | ["f32-bits", n] => match nat? n with
+    | some n => (st, cmpModel (toString (F32.bits (F32.ofNat n))) impl)
+    | none => (st, .unknown)
+  | ["f32-div", a, b] => match nat? a, nat? b with
+    | some a, some b => (st, cmpModel (toString (F32.bits (F32.div (F32.ofNat a) (F32.ofNat b)))) impl)
+    | _, _ => (st, .unknown)
+  | ["f32-needs", m, u, c] => match nat? m, nat? u, nat? c with
+    | some m, some u, some c =>
+      let r := F32.needsResizeF32 m u c
       (st, cmpModel s!"{showBool r.1} {r.2}" impl)
     | _, _, _ => (st, .unknown)
   | ["obs"] => (st, cmpSpec (showDump st.m.committed) impl)
